@@ -26,11 +26,12 @@ LEVEL_NOTE = ("trusted: R5 (vf/ref/visitor.py): children by reflection in source
 TECHNIQUE = "runtime monitoring: differential oracle (reference recursive visitor) on recorded enter/leave call logs and result trees, scripted visitor families"
 RULE = ("trees: documents/values/types from the grammar-directed generator (all definition kinds, both experimental syntaxes) and type-directed executable "
         "documents; visitors: random decision tables keyed by (phase, kind, occurrence), the exhaustive family of one non-idle decision at one (node, phase) for trees "
-        "of <= 40 nodes, parallel groups of non-editing visitors, TypeInfoVisitor wrappers. Non-trivial: the visitor returned at least one non-idle decision and the tree has >= 5 nodes; "
+        "of <= 40 nodes, parallel groups of non-editing visitors, TypeInfoVisitor wrappers; a third of the traversals use a generated Visitor subclass whose methods are kind-specific "
+        "(enter_<kind> / leave_<kind> for a random subset, with or without generic fall-backs), so dispatch by method name is exercised as well. Non-trivial: the visitor returned at least one non-idle decision and the tree has >= 5 nodes; "
         "distinct = (tree text, visitor script).")
 ASSUMPTIONS = ["document order = increasing source position of the children (trees are parsed with locations)",
                "scripted visitors either edit or break, not both (the result of that combination is undocumented)"]
-REQUIRED_COUNTERS = ["traversals_compared", "call_log_entries_compared", "edited_trees_compared", "parallel_sublogs_compared",
+REQUIRED_COUNTERS = ["traversals_with_kind_specific_methods", "traversals_compared", "call_log_entries_compared", "edited_trees_compared", "parallel_sublogs_compared",
                      "root_decisions_checked", "nodes_reflected_for_key_map"]
 
 POOL_SRC = ['{ zz }', '{ r1: r(a: 1) { s } }', 'fragment RR on T { q }', 'type RT { f: Int }', '{ ...Q @d }']
@@ -108,11 +109,41 @@ class Logging(Visitor):
         return to_real(self.script('leave', node))
 
 
-def run_ref(root, script, original_ids):
+_ks_classes = {}
+
+
+def kind_specific(methods, fallback):
+    """A Visitor subclass with enter_<kind> / leave_<kind> methods for `methods` (a frozenset of (phase, kind)) and, if
+    `fallback`, generic enter / leave for every other kind.  Dispatch by method name is a second way into visit()."""
+    key = (methods, fallback)
+    cls = _ks_classes.get(key)
+    if cls is None:
+        def mk(phase):
+            def method(self, node, key, parent, path, ancestors):
+                self.log.append(entry(phase, node, key, parent, path, ancestors, self.ids))
+                return to_real(self.script(phase, node))
+            return method
+        ns = {f'{phase}_{kind}': mk(phase) for phase, kind in methods}
+
+        def init(self, script, log, original_ids):
+            Visitor.__init__(self)
+            self.script, self.log, self.ids = script, log, original_ids
+        ns['__init__'] = init
+        if fallback:
+            ns['enter'], ns['leave'] = mk('enter'), mk('leave')
+        cls = type('KindSpecific', (Visitor,), ns)
+        if len(_ks_classes) < 400:
+            _ks_classes[key] = cls
+    return cls
+
+
+def run_ref(root, script, original_ids, handled=None):
     log = []
     script.reset()
 
     def decide(phase, node, key, parent, path, ancestors):
+        if handled is not None and (phase, node.kind) not in handled:
+            return R5.IDLE      # the visitor has no method for this kind and phase: nothing is called
         log.append(entry(phase, node, key, parent, path, ancestors, original_ids))
         a = script(phase, node)
         return R5.IDLE if a is None else a
@@ -127,12 +158,25 @@ def short_log(log, i):
 def compare_traversal(ctx, root, text, script, case, edits):
     ids = {id(n) for n in walk(root)} | {id(n) for n in pool()}
     before = plain(root, with_loc=True)
-    ref_log, ref_result, broke = run_ref(root, script, ids)
+    # a third of the traversals dispatch through kind-specific method names instead of generic enter / leave
+    vr = random.Random(len(text) * 7919 + len(script.table) * 104729 + sum(map(ord, text[:64])))
+    handled = None
+    make = Logging
+    if vr.random() < 0.34:
+        kinds = sorted(QUERY_DOCUMENT_KEYS)
+        methods = frozenset((ph, k) for k in vr.sample(kinds, vr.randint(1, len(kinds))) for ph in ('enter', 'leave') if vr.random() < 0.8)
+        fallback = vr.random() < 0.5
+        make = kind_specific(methods, fallback)
+        handled = None if fallback else methods
+        ctx.count("traversals_with_kind_specific_methods")
+        case = {**case, "kind_specific": True}
+    ref_log, ref_result, broke = run_ref(root, script, ids, handled)
+    ref_fired = script.fired
     script.reset()
     log = []
     ctx.count("traversals_compared")
     try:
-        result = visit(root, Logging(script, log, ids))
+        result = visit(root, make(script, log, ids))
     except Exception as e:  # noqa: BLE001
         at_root = any(k[0] in ('enter', 'leave') and k[1] == root.kind and k[2] in (0, '*') for k in script.table)
         ctx.violation(f"visit-crash:{type(e).__name__}" + (":root-decision" if at_root and len(script.table) == 1 else ""),
